@@ -949,6 +949,8 @@ def hypotheses(enc, ver, split):
         H.append(('xml11-nel-ls-written-literally', lambda ev: _map_texts(ev, t11, lambda v: t11(v, ' '))))
     if enc in EBCDIC:
         H.append(('ebcdic-nel-becomes-lf', lambda ev: _map_texts(ev, lambda s: s.replace('\u0085', '\n'), lambda v: v.replace('\u0085', ' '), f_other=lambda s: s.replace('\u0085', '\n'))))
+        # inside the DOCTYPE string the character may sit in an attribute default, where the line end is further normalised to a space
+        H.append(('ebcdic-nel-becomes-lf', lambda ev: [('DIS', e[1].replace('\u0085', ' ')) if e[0] == 'DIS' and e[1] else e for e in ev]))
     if enc in ICU_ENCODINGS:
         def drop(s):
             return ''.join(ch for ch in s if not (ord(ch) in DEFAULT_IGNORABLE and rep(enc, ch) is not True))
@@ -1221,7 +1223,7 @@ class Judge:
             H = hypotheses(eff_enc, ver, split)
             named = None
             for k in range(1, len(H) + 1):
-                for combo in itertools.combinations(H, k):
+                for combo in (itertools.permutations(H, k) if k <= 3 else itertools.combinations(H, k)):
                     ev = o.A
                     for _, f in combo:
                         ev = f(ev)
@@ -1233,7 +1235,7 @@ class Judge:
                         if xa != xb:
                             xa, xb = loose(ev, o.B, drop_cd=True)
                     if xa == xb:
-                        named = '+'.join(n for n, _ in combo)
+                        named = '+'.join(sorted(set(n for n, _ in combo)))
                         break
                 if named:
                     break
@@ -1243,8 +1245,19 @@ class Judge:
                 return False
             kind = diff_kind(d)
             nsloss = None
-            if kind == 'element-ns' and d[1][2] is None and d[2][2] is not None and ':' not in d[1][1]:
-                nsloss = 'nsfixup-default-namespace-not-undeclared'       # an element in no namespace re-parses into the inherited default namespace
+            if kind == 'element-ns' and ':' not in d[1][1]:
+                # an unprefixed element came back in another namespace: its default-namespace (un)declaration was not written.  The known
+                # cause needs an ancestor that carries an xmlns attribute without being in that namespace through an empty prefix itself
+                # (prefixed, or in no namespace): processNode files that declaration under the key "xmlns"
+                stack = []
+                for e in la[:d[0]]:
+                    if e[0] == 'SE':
+                        stack.append(e)
+                    elif e[0] == 'EE' and stack:
+                        stack.pop()
+                trigger = any(any(a[0] == 'xmlns' for a in e[4]) and (':' in e[1] or e[2] is None) for e in stack)
+                if trigger:
+                    nsloss = 'nsfixup-default-namespace-not-undeclared' if d[1][2] is None else 'nsfixup-default-namespace-not-redeclared'
             elif kind == 'attr-ns':
                 na, nb = dict((x[0], x) for x in d[1][4]), dict((x[0], x) for x in d[2][4])
                 bad = [k for k in sorted(na) if na[k][1] != nb[k][1]]
